@@ -280,7 +280,7 @@ func cmdLevels(f hx.Flags, r *hx.Result) {
 			}
 			exps[id] = x
 			eid := id
-			ret, p := hx.Within(3*time.Second, func() { e.call(ctx, tag, eid) })
+			ret, p := hx.Within(8*time.Second, func() { e.call(ctx, tag, eid) })
 			if !ret {
 				blocked = e.name
 				break
@@ -291,7 +291,7 @@ func cmdLevels(f hx.Flags, r *hx.Result) {
 		}
 		if blocked != "" {
 			r.Eval(1)
-			r.Violate("log-call-blocked:"+kindClass(kind), desc, "%s did not return within 3 s", blocked)
+			r.Violate("log-call-blocked:"+kindClass(kind), desc, "%s did not return within 8 s", blocked)
 			log.VerifReset() // the blocked goroutine is abandoned; start over with clean registries
 			tag = log.RegisterTag("tag_c01")
 			return nil
